@@ -938,6 +938,16 @@ func (env *Env) call(n *ast.CallExpr) *SVal {
 	if nat, ok := nativeSpec[callee.Name()]; ok && strings.HasPrefix(callee.Pkg.Pkg.Path(), modPath) && e.w.isContractFileFunc(callee) {
 		return nat(env, n, args)
 	}
+	if m, ok := nativeModels[callee.String()]; ok && pureNative[callee.String()] {
+		saved := e.cur
+		e.cur = env.state()
+		r := m(e, env.fr, args, nil, callee.Signature.Results())
+		e.cur = saved
+		if tt, ok := callee.Signature.Results().Underlying().(*types.Tuple); ok && tt.Len() == 1 && r.K == KTuple {
+			return r.Fields[0]
+		}
+		return r
+	}
 	return e.callPure(callee, args, env.state())
 }
 
@@ -1059,4 +1069,11 @@ func (w *World) lookupTypeByName(name string) types.Type {
 		return types.NewPointer(o.Type())
 	}
 	return o.Type()
+}
+
+// native models that are pure functions of their arguments and may be used from contracts
+var pureNative = map[string]bool{
+	"(time.Time).Unix": true, "(time.Time).Before": true, "(time.Time).After": true, "(time.Time).Equal": true,
+	"(time.Duration).Seconds": true, "(time.Duration).Minutes": true, "(time.Duration).Hours": true,
+	"math.Floor": true, "math.Ceil": true,
 }
